@@ -21,7 +21,7 @@ from prng import Rng
 PROP = "C14"
 
 BUDGET = {
-    "quick": {"histories": 3, "edits": 5},
+    "quick": {"histories": 5, "edits": 6},
     "thorough": {"histories": 60, "edits": 8},
 }
 
@@ -238,9 +238,9 @@ def gen_history(rng, n_edits, hidx):
                 edits.append("remove_type:%s" % inserted.pop())
             else:
                 # the name decides where the type sorts among the existing ones
-                name = "%sVerifExtra%d_%d" % (rng.pick(["", "Aa", "Zz"]), hidx, i)
+                name = "%sVerifExtra%d_%d" % (rng.pick(["", "Aa", "Zz", "Zz"]), hidx, i)
                 inserted.append(name)
-                edits.append("insert_type:%s:%s:%d" % (name, rng.pick(["opaque", "struct", "enum", "opaque_impl", "opaque_impl"]), rng.below(64)))
+                edits.append("insert_type:%s:%s:%d" % (name, rng.pick(["opaque", "struct", "enum", "opaque_impl", "opaque_impl", "opaque_impl"]), rng.pick([0, 0, 1000, 2000]) + rng.below(64)))
         else:
             if nonbridge and rng.chance(1, 2):
                 edits.append("remove_nonbridge")
